@@ -1625,7 +1625,15 @@ def expand_bvals(flow, v):
 
 # ---------------------------------------------------------------------- propositional reasoning over guards
 
+def _unbool(c):
+    """bool(x) has the truth value of x"""
+    while isinstance(c, tuple) and len(c) == 4 and c[0] == "call" and c[1] == ("global", "bool") and len(c[2]) == 1 and not c[3]:
+        c = c[2][0]
+    return c
+
+
 def _bool_atoms(c, acc):
+    c = _unbool(c)
     if isinstance(c, tuple) and len(c) == 3 and c[0] == "unop" and c[1] == "Not":
         _bool_atoms(c[2], acc)
     elif isinstance(c, tuple) and len(c) == 3 and c[0] == "bool":
@@ -1638,6 +1646,7 @@ def _bool_atoms(c, acc):
 
 
 def _bool_eval(c, env):
+    c = _unbool(c)
     if isinstance(c, tuple) and len(c) == 3 and c[0] == "unop" and c[1] == "Not":
         return not _bool_eval(c[2], env)
     if isinstance(c, tuple) and len(c) == 3 and c[0] == "bool":
